@@ -175,9 +175,14 @@ def evaluate(case, out):
                     try:
                         if len(cvrs) % 2 == 0:  # a first tally of a preliminary export, then the real one
                             Contest.tally(contests, cvrs[: len(cvrs) // 2 + 1], enforce_rules=False)
-                        Contest.tally(contests, cvrs, enforce_rules=False)
-                        con.cards = len(pop)
-                        a.find_margin_from_tally()
+                        if len(cvrs) % 3 == 0:  # the tally handed over by the caller, whatever an earlier export left stored in the contest
+                            feats.add("explicit-tally")
+                            con.cards = len(pop)
+                            a.find_margin_from_tally(tally=dict(tally))
+                        else:
+                            Contest.tally(contests, cvrs, enforce_rules=False)
+                            con.cards = len(pop)
+                            a.find_margin_from_tally()
                         m = a.margin
                     except Exception as e:  # noqa
                         out.lib_exception("tally-margin", e)
@@ -226,9 +231,14 @@ def evaluate(case, out):
                 try:
                     if len(cvrs) % 2 == 0:
                         Contest.tally(contests, cvrs[: len(cvrs) // 2 + 1], enforce_rules=True)
-                    Contest.tally(contests, cvrs, enforce_rules=True)
-                    con.cards = len(pop)
-                    a.find_margin_from_tally()
+                    if len(cvrs) % 3 == 0:  # the caller's own tally of the valid votes; the contest keeps at most a preliminary one
+                        feats.add("explicit-tally")
+                        con.cards = len(pop)
+                        a.find_margin_from_tally(tally={c: sum(1 for b in valid if sa.truthy(b.get(c, False))) for c in cands})
+                    else:
+                        Contest.tally(contests, cvrs, enforce_rules=True)
+                        con.cards = len(pop)
+                        a.find_margin_from_tally()
                     m = a.margin
                 except Exception as e:  # noqa
                     out.lib_exception("tally-margin", e)
